@@ -10,7 +10,18 @@ pub trait VRecv: Sized {
         ensures
             old(self).rem().len() == 0 ==> r is Err && final(self).rem() == old(self).rem(),
             old(self).rem().len() > 0 ==> r == Ok::<DltMessage, VxRecvError>(old(self).rem()[0]) && final(self).rem() == old(self).rem().skip(1);
+    // Receiver::recv_timeout / try_recv (not used by the text as it stands): may give up although messages are still to come
+    fn recv_timeout(&mut self, d: VxDuration) -> (r: Result<DltMessage, VxRecvError>)
+        ensures
+            r is Err ==> final(self).rem() == old(self).rem(),
+            r is Ok ==> old(self).rem().len() > 0 && r == Ok::<DltMessage, VxRecvError>(old(self).rem()[0]) && final(self).rem() == old(self).rem().skip(1);
+    fn try_recv(&mut self) -> (r: Result<DltMessage, VxRecvError>)
+        ensures
+            r is Err ==> final(self).rem() == old(self).rem(),
+            r is Ok ==> old(self).rem().len() > 0 && r == Ok::<DltMessage, VxRecvError>(old(self).rem()[0]) && final(self).rem() == old(self).rem().skip(1);
 }
+pub struct VxDuration { pub ms: u64 }
+pub fn vx_millis(ms: u64) -> (r: VxDuration) { VxDuration { ms } }
 pub trait VSink: Sized {
     spec fn log(&self) -> Seq<DltMessage>;
     fn send(&mut self, m: DltMessage) -> (r: Result<(), DltMessage>)
@@ -76,7 +87,8 @@ pub open spec fn kept_seq(filters: Seq<Filter>, ms: Seq<DltMessage>, n: int) -> 
 //@   sub R12 `<F: Fn(DltMessage) -> SendMsgFnReturnType>` => `<I: VRecv, S: VSink>`
 //@   sub R12 `input: &Receiver<DltMessage>` => `input: &mut I`
 //@   sub R12 `output: &F` => `output: &mut S`
-//@   sub R12 `output(msg)` => `output.send(msg)`
+//@   sub R12 `output(_id_)` => `output.send($1)` *
+//@   sub R12 `std::time::Duration::from_millis(__)` => `vx_millis($1)` ?
 //@   sub R11 `filters .iter() .filter(|f| f.enabled && f.kind == FilterKind::Positive) .collect()` => `vx_select(filters, FilterKind::Positive)`
 //@   sub R11 `filters .iter() .filter(|f| f.enabled && f.kind == FilterKind::Negative) .collect()` => `vx_select(filters, FilterKind::Negative)`
 //@   sub R11 `pos_filters.iter().any(|f| f.matches(&msg))` => `vx_any_ref(&pos_filters, &msg)`
@@ -102,7 +114,7 @@ pub open spec fn kept_seq(filters: Seq<Filter>, ms: Seq<DltMessage>, n: int) -> 
 //@|        deref_seq(pos_filters@) == selected(filters@, FilterKind::Positive, filters@.len() as int),
 //@|        deref_seq(neg_filters@) == selected(filters@, FilterKind::Negative, filters@.len() as int),
 //@|    ensures
-//@|        k == ms.len(), input.rem().len() == 0,
+//@|        k == ms.len(), input.rem().len() == 0, // O:stream_filter.exhausts (the stage leaves its loop only when its receiver is exhausted - or through a failed send)
 //@|        passed + filtered == k, passed == kept_seq(filters@, ms, k).len(), output.log() == log0 + kept_seq(filters@, ms, k),
 //@|    decreases ms.len() - k,
 //@   hint after `let msg = recv.unwrap();`
